@@ -111,7 +111,7 @@ def check(case):
     tight = 2e-6 if crys.dim == 3 else 2e-5
     if r4["eq"] > tight:
         r8, _, _, _ = residuals(case, 8)
-        require(r8["eq"] <= max(tight, 0.5 * r4["eq"]),
+        require(r8["eq"] <= max(tight, vs.SHRINK * r4["eq"]),
                 lambda: "lattice diffusion equation residual %.3e (relative to escape*|g(0)|) at Nmax=4 does not shrink with the k-mesh (Nmax=8: %.3e)" % (r4["eq"], r8["eq"]))
         classes.append("integration_limited")
         residuals(case, 4)  # restore rates on the Nmax=4 calculator
@@ -160,7 +160,7 @@ def check(case):
                 # the same separations with a denser mesh: mesh-limited deviations shrink, a wrong pole amplitude does not
                 r8_, GF8, _, _ = residuals(case, 8)
                 far8 = farfield(GF8, grid4)
-                require(far8 <= max(6.0, 0.5 * far), lambda: "far field: g*|x|_D deviates from the continuum pole by %.3f * (jump length/|x|)^2 (Nmax=8: %.3f)" % (far, far8))
+                require(far8 <= max(6.0, vs.SHRINK * far), lambda: "far field: g*|x|_D deviates from the continuum pole by %.3f * (jump length/|x|)^2 (Nmax=8: %.3f)" % (far, far8))
                 classes.append("farfield_integration_limited")
                 residuals(case, 4)
     # (d) uniform scaling of all rates
